@@ -99,6 +99,30 @@ class Ctx:
 
 
 # ------------------------------------------------------------------ helpers
+def private_callee(ctx, cls, callers, pick=None):
+    """The private method of `cls` that the given public methods call (found by use, so that a rename of the
+    helper is not an anchor loss).  `pick`: optional predicate on the candidate Func."""
+    import ast as _ast
+    from .model import dotted as _dotted
+    ci = ctx.prog.classes[cls]
+    counts = {}
+    for name in callers:
+        f = ci.methods.get(name)
+        if f is None:
+            continue
+        for n in _ast.walk(f.node):
+            if isinstance(n, _ast.Call):
+                d = _dotted(n.func) or ''
+                if d.startswith('self._') and not d.startswith('self.__'):
+                    g = ci.methods.get(d[5:])
+                    if g is not None and not g.is_property and (pick is None or pick(g)):
+                        counts[g.name] = counts.get(g.name, 0) + 1
+    if not counts:
+        from .model import AnalysisError
+        raise AnalysisError('anchor vanished: no private helper of %s is called by %s' % (cls, '/'.join(callers)))
+    return ci.methods[max(counts, key=counts.get)]
+
+
 def fmt_trace(trace, limit=40):
     out = []
     for ev in trace:
